@@ -306,6 +306,18 @@ static void check_map(Cont* c, int full) {
     if (!elem_matches(c->vt, val, c->v[hit])) VIOL(c, "value-mismatch", "value reached through iteration differs from model after %s", g_lastop);
   }
   if (cnt != c->n) VIOL(c, "iter-too-short", "iteration yields %d of %d keys after %s", cnt, c->n, g_lastop);
+  if (c->kind == K_TREE && c->kt == ET_CKEY && c->n > 0) {
+    /* black-box cross-check of balance: a lookup compares at most height <= 2*log2(n+1) keys (CKey counts its comparisons) */
+    double bound = 2.0 * (log((double)c->n + 1.0) / log(2.0)) + 1.0;
+    for (int probe = 0; probe < 3; probe++) {
+      int64_t kv = probe == 0 ? c->k[0] : probe == 1 ? c->k[c->n - 1] : keyval(K_TREE, ET_CKEY, g_opidx * 7 + 3);
+      long before = ckey_cmp_calls;
+      (void)mem(o, MKVAL(ET_CKEY, kv));
+      long used = ckey_cmp_calls - before;
+      if ((double)used > bound + 1e-9) VIOL(c, "lookup-not-logarithmic", "a lookup among %d keys made %ld comparisons (bound %.1f) after %s", c->n, used, bound, g_lastop);
+      stat_max("tree.max_cmp_per_lookup", used);
+    }
+  }
   if (c->kind == K_TREE) {
     /* backward iteration must be the exact reverse of forward iteration */
     static var fwd[MAXN];
